@@ -246,11 +246,14 @@ package eval
 // NetworkPolicy layer of the engine (C01, C14): which policies govern a pod, and what they allow together
 // ---------------------------------------------------------------------------------------------
 
+// the four pre-scanned exposure sets of a policy are well-formed connection sets
+//@ pred npExpOK(np *k8s.NetworkPolicy) = wfCS(np.IngressPolicyExposure.ExternalExposure) && wfCS(np.IngressPolicyExposure.ClusterWideExposure)
+//@     && wfCS(np.EgressPolicyExposure.ExternalExposure) && wfCS(np.EgressPolicyExposure.ClusterWideExposure)
 // a stored policy is usable: decoded object present, ports valid (V), exposure sets present; without exposure analysis
 // the pre-scanned exposure sets are never filled, so none of them is the full set
 //@ pred npOK(pe *PolicyEngine, np *k8s.NetworkPolicy) = np != nil && allocated(np) && np.NetworkPolicy != nil && validNP(np)
 //@     && np.IngressPolicyExposure.ExternalExposure != nil && np.IngressPolicyExposure.ClusterWideExposure != nil
-//@     && np.EgressPolicyExposure.ExternalExposure != nil && np.EgressPolicyExposure.ClusterWideExposure != nil
+//@     && np.EgressPolicyExposure.ExternalExposure != nil && np.EgressPolicyExposure.ClusterWideExposure != nil && npExpOK(np)
 //@     && (!pe.exposureAnalysisFlag ==> (!np.IngressPolicyExposure.ExternalExposure.AllowAll && !np.IngressPolicyExposure.ClusterWideExposure.AllowAll
 //@            && !np.EgressPolicyExposure.ExternalExposure.AllowAll && !np.EgressPolicyExposure.ClusterWideExposure.AllowAll))
 //@ pred netpolsOK(pe *PolicyEngine) = pe.netpolsMap != nil
@@ -269,8 +272,187 @@ package eval
 //@         (old(peerPod(peer).Namespace in pe.netpolsMap) && old(name in pe.netpolsMap[peerPod(peer).Namespace])
 //@          && governs(old(pe.netpolsMap[peerPod(peer).Namespace][name]), peerPod(peer), direction)) ==>
 //@         (exists i int :: 0 <= i && i < len(res0) && res0[i] == old(pe.netpolsMap[peerPod(peer).Namespace][name])))
+//@   ensures [C06,C08] expdata: forall d *k8s.Pod :: {d.IngressExposureData} {d.EgressExposureData}
+//@         (d.IngressExposureData.ClusterWideConnection == old(d.IngressExposureData.ClusterWideConnection)
+//@          && d.EgressExposureData.ClusterWideConnection == old(d.EgressExposureData.ClusterWideConnection)
+//@          && (d != peerPod(peer) ==> (d.IngressExposureData == old(d.IngressExposureData) && d.EgressExposureData == old(d.EgressExposureData))))
+// C06: with exposure analysis, the pod is marked protected in the direction iff some policy governs it in that direction
+// (the flag is only ever raised, and only here)
+//@   ensures [C06] protected: (res1 == nil && dyntype(peer, *k8s.PodPeer)) ==>
+//@         (peerPod(peer).IngressExposureData.IsProtected == (old(peerPod(peer).IngressExposureData.IsProtected) || (pe.exposureAnalysisFlag && len(res0) > 0 && direction == "Ingress"))
+//@          && peerPod(peer).EgressExposureData.IsProtected == (old(peerPod(peer).EgressExposureData.IsProtected) || (pe.exposureAnalysisFlag && len(res0) > 0 && direction != "Ingress")))
 //@   loop 1:
 //@     invariant sub: forall name string :: {seen(name)} seen(name) ==> name in netpols
+//@     invariant expdata: forall d *k8s.Pod :: {d.IngressExposureData} {d.EgressExposureData} (d.IngressExposureData == old(d.IngressExposureData) && d.EgressExposureData == old(d.EgressExposureData))
 //@     invariant nilmap: netpols == nil ==> len(res) == 0
 //@     invariant sound: forall i int :: {res[i]} (0 <= i && i < len(res)) ==> (exists name string :: name in netpols && res[i] == netpols[name] && governs(res[i], p, direction))
 //@     invariant complete: forall name string :: {seen(name)} (seen(name) && governs(netpols[name], p, direction)) ==> (exists i int :: 0 <= i && i < len(res) && res[i] == netpols[name])
+
+// ---------------------------------------------------------------------------------------------
+// NetworkPolicy layer, part 2 (C01, C06, C08): the union over the governing policies, and the entire-cluster
+// exposure data accumulated on the way
+// ---------------------------------------------------------------------------------------------
+
+//@ fun accOf(pod *k8s.Pod, isIngress bool) *common.ConnectionSet =
+//@     if isIngress then pod.IngressExposureData.ClusterWideConnection else pod.EgressExposureData.ClusterWideConnection
+//@ fun cweOf(np *k8s.NetworkPolicy, isIngress bool) *common.ConnectionSet =
+//@     if isIngress then np.IngressPolicyExposure.ClusterWideExposure else np.EgressPolicyExposure.ClusterWideExposure
+// the pod's two accumulators share nothing with the policy's four sets
+//@ pred podNpSep(pod *k8s.Pod, np *k8s.NetworkPolicy) =
+//@     sepCS(pod.IngressExposureData.ClusterWideConnection, np.IngressPolicyExposure.ExternalExposure)
+//@     && sepCS(pod.IngressExposureData.ClusterWideConnection, np.IngressPolicyExposure.ClusterWideExposure)
+//@     && sepCS(pod.IngressExposureData.ClusterWideConnection, np.EgressPolicyExposure.ExternalExposure)
+//@     && sepCS(pod.IngressExposureData.ClusterWideConnection, np.EgressPolicyExposure.ClusterWideExposure)
+//@     && sepCS(pod.EgressExposureData.ClusterWideConnection, np.IngressPolicyExposure.ExternalExposure)
+//@     && sepCS(pod.EgressExposureData.ClusterWideConnection, np.IngressPolicyExposure.ClusterWideExposure)
+//@     && sepCS(pod.EgressExposureData.ClusterWideConnection, np.EgressPolicyExposure.ExternalExposure)
+//@     && sepCS(pod.EgressExposureData.ClusterWideConnection, np.EgressPolicyExposure.ClusterWideExposure)
+
+//@ fun policyPts(np *k8s.NetworkPolicy, src k8s.Peer, dst k8s.Peer, isIngress bool, q string, n int) bool =
+//@     if isIngress then ingressPolicyPts(np, src, dst, q, n) else egressPolicyPts(np, dst, q, n)
+
+// Without exposure analysis the result is exactly what the policy's rules allow; with it, the result is that or one of the
+// policy's own pre-scanned sets. Nothing existing is modified.
+//@ func (*PolicyEngine).determineAllowedConnsPerDirection
+//@   hide peerMatch, portMatch
+//@   requires pe != nil && npOK(pe, policy)
+//@   requires realPeer(src) && realPeer(dst) && realDst(dst)
+//@   modifies *
+//@   ensures [C01,C06,C08] kept: allKept()
+//@   ensures [C01,C06,C08] wf: res1 == nil ==> (wfCS(res0) && ((fresh(res0) && freshSep(res0)) || (pe.exposureAnalysisFlag && (
+//@         res0 == policy.IngressPolicyExposure.ExternalExposure || res0 == policy.IngressPolicyExposure.ClusterWideExposure
+//@         || res0 == policy.EgressPolicyExposure.ExternalExposure || res0 == policy.EgressPolicyExposure.ClusterWideExposure))))
+//@   ensures [C01,C14] pts: (res1 == nil && !pe.exposureAnalysisFlag) ==> (forall q corev1.Protocol, n int :: {iset(res0.AllowedProtocols[q].Ports)[n]}
+//@         pts(res0, q, n) == policyPts(policy, src, dst, isIngress, q, n))
+
+//@ func updatePeerXgressClusterWideExposure
+//@   requires policy != nil && realPeer(src) && realPeer(dst) && npExpOK(policy)
+//@   requires dyntype(if isIngress then dst else src, *k8s.PodPeer) && podExpOK(peerPod(if isIngress then dst else src)) && validPodPorts(peerPod(if isIngress then dst else src))
+//@   requires podNpSep(peerPod(if isIngress then dst else src), policy)
+//@   modifies *
+//@   ensures [C06,C08] own: peerPod(if isIngress then dst else src).IngressExposureData == old(peerPod(if isIngress then dst else src).IngressExposureData)
+//@         && peerPod(if isIngress then dst else src).EgressExposureData == old(peerPod(if isIngress then dst else src).EgressExposureData)
+//@   ensures [C06,C08] wf: podExpOK(peerPod(if isIngress then dst else src))
+//@   ensures [C06,C08] others: othersKept(accOf(peerPod(if isIngress then dst else src), isIngress))
+//@   ensures [C06,C08] grows: ptsGrows(accOf(peerPod(if isIngress then dst else src), isIngress), cweOf(policy, isIngress))
+
+// state the exposure bookkeeping relies on: the pod's accumulators and every stored policy's pre-scanned sets are
+// well-formed and share nothing
+//@ pred expStateOK(pe *PolicyEngine, pod *k8s.Pod) = podExpOK(pod) && validPodPorts(pod)
+//@     && (forall ns string :: {ns in pe.netpolsMap} ns in pe.netpolsMap ==> (forall name string :: {name in pe.netpolsMap[ns]} name in pe.netpolsMap[ns] ==>
+//@            (npExpOK(pe.netpolsMap[ns][name]) && podNpSep(pod, pe.netpolsMap[ns][name]))))
+//@ fun selPeer(src k8s.Peer, dst k8s.Peer, isIngress bool) k8s.Peer = if isIngress then dst else src
+//@ fun dirOf(isIngress bool) netv1.PolicyType = if isIngress then "Ingress" else "Egress"
+// policy `name` of the pod's namespace governs the pod in the direction
+//@ fun governing(pe *PolicyEngine, pod *k8s.Pod, isIngress bool, name string) bool = pod.Namespace in pe.netpolsMap && name in pe.netpolsMap[pod.Namespace]
+//@     && governs(pe.netpolsMap[pod.Namespace][name], pod, dirOf(isIngress))
+// the point set of t is what it was just before the call (after-call assertions)
+//@ pred samePtsPrev(t *common.ConnectionSet) = forall q corev1.Protocol, n int :: {iset(t.AllowedProtocols[q].Ports)[n]} {prev(iset(t.AllowedProtocols[q].Ports)[n])}
+//@     pts(t, q, n) == prev(pts(t, q, n))
+//@ pred ptsIncl(a *common.ConnectionSet, b *common.ConnectionSet) = forall q corev1.Protocol, n int ::
+//@     {iset(a.AllowedProtocols[q].Ports)[n]} {iset(b.AllowedProtocols[q].Ports)[n]} pts(a, q, n) ==> pts(b, q, n)
+//@ pred cweIncluded(np *k8s.NetworkPolicy, pod *k8s.Pod, isIngress bool) =
+//@     (isIngress ==> ptsIncl(np.IngressPolicyExposure.ClusterWideExposure, pod.IngressExposureData.ClusterWideConnection))
+//@     && (!isIngress ==> ptsIncl(np.EgressPolicyExposure.ClusterWideExposure, pod.EgressExposureData.ClusterWideConnection))
+
+// C01: captured iff some policy governs the selected end; the allowed set is the union over the governing policies.
+// C06/C08: with exposure analysis, every governing policy's cluster-wide set ends up in the pod's entire-cluster data -
+// whatever order the policies are visited in - and no policy's set is touched.
+//@ func (*PolicyEngine).getAllAllowedXgressConnsFromNetpols
+//@   hide peerMatch, portMatch, governs, ingressPolicyPts, egressPolicyPts
+//@   requires pe != nil && netpolsOK(pe) && realPeer(src) && realPeer(dst) && realDst(dst)
+//@   requires (pe.exposureAnalysisFlag && dyntype(selPeer(src, dst, isIngress), *k8s.PodPeer)) ==> expStateOK(pe, peerPod(selPeer(src, dst, isIngress)))
+//@   modifies *
+//@   ensures [C01,C14] captured: err == nil ==> (captured == (dyntype(selPeer(src, dst, isIngress), *k8s.PodPeer)
+//@         && (exists name string :: governing(pe, peerPod(selPeer(src, dst, isIngress)), isIngress, name))))
+//@   ensures [C01] nocapture: (err == nil && !captured) ==> policiesConns == nil
+//@   ensures [C01,C14] pts: (err == nil && captured && !pe.exposureAnalysisFlag) ==> (policiesConns != nil && wfCS(policiesConns.AllowedConns)
+//@         && (forall q corev1.Protocol, n int :: {iset(policiesConns.AllowedConns.AllowedProtocols[q].Ports)[n]}
+//@         pts(policiesConns.AllowedConns, q, n) == (exists name string :: governing(pe, peerPod(selPeer(src, dst, isIngress)), isIngress, name)
+//@              && policyPts(pe.netpolsMap[peerPod(selPeer(src, dst, isIngress)).Namespace][name], src, dst, isIngress, q, n))))
+//@   ensures [C06,C08] expo: (err == nil && pe.exposureAnalysisFlag && dyntype(selPeer(src, dst, isIngress), *k8s.PodPeer)) ==>
+//@         (forall name string :: {name in pe.netpolsMap[peerPod(selPeer(src, dst, isIngress)).Namespace]} governing(pe, peerPod(selPeer(src, dst, isIngress)), isIngress, name) ==>
+//@              cweIncluded(pe.netpolsMap[peerPod(selPeer(src, dst, isIngress)).Namespace][name], peerPod(selPeer(src, dst, isIngress)), isIngress))
+//@   ensures [C06,C08] own: (pe.exposureAnalysisFlag && dyntype(selPeer(src, dst, isIngress), *k8s.PodPeer)) ==>
+//@         (peerPod(selPeer(src, dst, isIngress)).IngressExposureData.ClusterWideConnection == old(peerPod(selPeer(src, dst, isIngress)).IngressExposureData.ClusterWideConnection)
+//@          && peerPod(selPeer(src, dst, isIngress)).EgressExposureData.ClusterWideConnection == old(peerPod(selPeer(src, dst, isIngress)).EgressExposureData.ClusterWideConnection)
+//@          )
+//@   ensures [C06,C08] own2: (pe.exposureAnalysisFlag && dyntype(selPeer(src, dst, isIngress), *k8s.PodPeer)) ==> podExpOK(peerPod(selPeer(src, dst, isIngress)))
+//@   at call 6 use: wf, pts, others
+//@   hint loop1.preserve.expo: expoprev6, expocur6
+//@   hint assert.before5.expo4: inv.expo, keepacc4, keepcwe4
+//@   hint assert.before6.expoprev: expo5
+//@   hint assert.before3.first: call1.sound, call2.sound, call1.ip, call2.ip, requires
+//@   hint assert.call5.expocur: call5.grows, keepcwe5
+//@   hint assert.call5.expo5: call5.grows, keepcwe5, expo4
+//@   hint assert.before6.expocur: expocur
+//@   hint assert.call6.expocur6: expocur, keepacc, keepcwe
+//@   hint loop1.preserve.pts: sofar, cur, call6.pts, call6.others
+//@   hint ensures.expo: inv.expo, inv.complete, inv.npok, inv.podexp, call7.kept, call1.complete, call2.complete
+//@   after call 4:
+//@     assert keepacc4: pe.exposureAnalysisFlag ==> (samePtsPrev(peerPod(selPeer(src, dst, isIngress)).IngressExposureData.ClusterWideConnection)
+//@         && samePtsPrev(peerPod(selPeer(src, dst, isIngress)).EgressExposureData.ClusterWideConnection))
+//@     assert keepcwe4: forall j int :: {netpols[j]} (0 <= j && j < len(netpols)) ==>
+//@         (samePtsPrev(netpols[j].IngressPolicyExposure.ClusterWideExposure) && samePtsPrev(netpols[j].EgressPolicyExposure.ClusterWideExposure))
+//@   after call 6:
+//@     assert keepacc: pe.exposureAnalysisFlag ==> (samePtsPrev(peerPod(selPeer(src, dst, isIngress)).IngressExposureData.ClusterWideConnection)
+//@         && samePtsPrev(peerPod(selPeer(src, dst, isIngress)).EgressExposureData.ClusterWideConnection))
+//@     assert keepcwe: forall j int :: {netpols[j]} (0 <= j && j < len(netpols)) ==>
+//@         (samePtsPrev(netpols[j].IngressPolicyExposure.ClusterWideExposure) && samePtsPrev(netpols[j].EgressPolicyExposure.ClusterWideExposure))
+//@     assert expoprev6: pe.exposureAnalysisFlag ==> (forall j int :: {netpols[j]} (0 <= j && j <= rangeindex - 1) ==> cweIncluded(netpols[j], peerPod(selPeer(src, dst, isIngress)), isIngress))
+//@     assert expocur6: pe.exposureAnalysisFlag ==> cweIncluded(netpols[rangeindex], peerPod(selPeer(src, dst, isIngress)), isIngress)
+//@   before call 5:
+//@     assert expo4: forall j int :: {netpols[j]} (0 <= j && j <= rangeindex - 1) ==> cweIncluded(netpols[j], peerPod(selPeer(src, dst, isIngress)), isIngress)
+//@   after call 5:
+//@     assert keepcwe5: forall j int :: {netpols[j]} (0 <= j && j < len(netpols)) ==>
+//@         (samePtsPrev(netpols[j].IngressPolicyExposure.ClusterWideExposure) && samePtsPrev(netpols[j].EgressPolicyExposure.ClusterWideExposure))
+//@     assert expo5: forall j int :: {netpols[j]} (0 <= j && j <= rangeindex - 1) ==> cweIncluded(netpols[j], peerPod(selPeer(src, dst, isIngress)), isIngress)
+//@     assert expocur: cweIncluded(netpols[rangeindex], peerPod(selPeer(src, dst, isIngress)), isIngress)
+//@   before call 6 cut:
+//@     assert idx: 0 <= rangeindex && rangeindex < len(netpols) && dyntype(selPeer(src, dst, isIngress), *k8s.PodPeer)
+//@     assert sets: wfCS(allowedConns) && wfCS(policyAllowedConnectionsPerDirection) && sepCS(allowedConns, policyAllowedConnectionsPerDirection)
+//@     assert some: exists name string :: governing(pe, peerPod(selPeer(src, dst, isIngress)), isIngress, name)
+//@     assert members: forall j int :: {netpols[j]} (0 <= j && j < len(netpols)) ==>
+//@         (exists name string :: governing(pe, peerPod(selPeer(src, dst, isIngress)), isIngress, name) && netpols[j] == pe.netpolsMap[peerPod(selPeer(src, dst, isIngress)).Namespace][name])
+//@     assert complete: forall name string :: {name in pe.netpolsMap[peerPod(selPeer(src, dst, isIngress)).Namespace]} governing(pe, peerPod(selPeer(src, dst, isIngress)), isIngress, name) ==>
+//@         (exists j int :: 0 <= j && j < len(netpols) && netpols[j] == pe.netpolsMap[peerPod(selPeer(src, dst, isIngress)).Namespace][name])
+//@     assert npok: forall j int :: {netpols[j]} (0 <= j && j < len(netpols)) ==>
+//@         (npOK(pe, netpols[j])
+//@          && sepCS(allowedConns, netpols[j].IngressPolicyExposure.ExternalExposure) && sepCS(allowedConns, netpols[j].IngressPolicyExposure.ClusterWideExposure)
+//@          && sepCS(allowedConns, netpols[j].EgressPolicyExposure.ExternalExposure) && sepCS(allowedConns, netpols[j].EgressPolicyExposure.ClusterWideExposure))
+//@     assert npsep: pe.exposureAnalysisFlag ==> (forall j int :: {netpols[j]} (0 <= j && j < len(netpols)) ==> podNpSep(peerPod(selPeer(src, dst, isIngress)), netpols[j]))
+//@     assert podexp: pe.exposureAnalysisFlag ==> (podExpOK(peerPod(selPeer(src, dst, isIngress)))
+//@         && sepCS(allowedConns, peerPod(selPeer(src, dst, isIngress)).IngressExposureData.ClusterWideConnection)
+//@         && sepCS(allowedConns, peerPod(selPeer(src, dst, isIngress)).EgressExposureData.ClusterWideConnection)
+//@         && peerPod(selPeer(src, dst, isIngress)).IngressExposureData.ClusterWideConnection == old(peerPod(selPeer(src, dst, isIngress)).IngressExposureData.ClusterWideConnection)
+//@         && peerPod(selPeer(src, dst, isIngress)).EgressExposureData.ClusterWideConnection == old(peerPod(selPeer(src, dst, isIngress)).EgressExposureData.ClusterWideConnection))
+//@     assert expoprev: pe.exposureAnalysisFlag ==> (forall j int :: {netpols[j]} (0 <= j && j <= rangeindex - 1) ==> cweIncluded(netpols[j], peerPod(selPeer(src, dst, isIngress)), isIngress))
+//@     assert expocur: pe.exposureAnalysisFlag ==> cweIncluded(netpols[rangeindex], peerPod(selPeer(src, dst, isIngress)), isIngress)
+//@     assert sofar: !pe.exposureAnalysisFlag ==> (forall q corev1.Protocol, n int :: {iset(allowedConns.AllowedProtocols[q].Ports)[n]}
+//@         pts(allowedConns, q, n) == (exists j int :: {netpols[j]} 0 <= j && j <= rangeindex - 1 && policyPts(netpols[j], src, dst, isIngress, q, n)))
+//@     assert cur: !pe.exposureAnalysisFlag ==> (forall q corev1.Protocol, n int :: {iset(policyAllowedConnectionsPerDirection.AllowedProtocols[q].Ports)[n]}
+//@         pts(policyAllowedConnectionsPerDirection, q, n) == policyPts(netpols[rangeindex], src, dst, isIngress, q, n))
+//@   before call 3:
+//@     assert npok0: forall j int :: {netpols[j]} (0 <= j && j < len(netpols)) ==> npOK(pe, netpols[j])
+//@     assert first: len(netpols) > 0 ==> (exists name string :: governing(pe, peerPod(selPeer(src, dst, isIngress)), isIngress, name) && netpols[0] == pe.netpolsMap[peerPod(selPeer(src, dst, isIngress)).Namespace][name])
+//@   loop 1 cut:
+//@     invariant wf: wfCS(allowedConns)
+//@     invariant pod: dyntype(selPeer(src, dst, isIngress), *k8s.PodPeer) && len(netpols) > 0
+//@     invariant some: exists name string :: governing(pe, peerPod(selPeer(src, dst, isIngress)), isIngress, name)
+//@     invariant complete: forall name string :: {name in pe.netpolsMap[peerPod(selPeer(src, dst, isIngress)).Namespace]} governing(pe, peerPod(selPeer(src, dst, isIngress)), isIngress, name) ==>
+//@         (exists j int :: 0 <= j && j < len(netpols) && netpols[j] == pe.netpolsMap[peerPod(selPeer(src, dst, isIngress)).Namespace][name])
+//@     invariant members: forall j int :: {netpols[j]} (0 <= j && j < len(netpols)) ==>
+//@         (exists name string :: governing(pe, peerPod(selPeer(src, dst, isIngress)), isIngress, name) && netpols[j] == pe.netpolsMap[peerPod(selPeer(src, dst, isIngress)).Namespace][name])
+//@     invariant pts: !pe.exposureAnalysisFlag ==> (forall q corev1.Protocol, n int :: {iset(allowedConns.AllowedProtocols[q].Ports)[n]}
+//@         pts(allowedConns, q, n) == (exists j int :: {netpols[j]} 0 <= j && j <= rangeindex && policyPts(netpols[j], src, dst, isIngress, q, n)))
+//@     invariant podexp: pe.exposureAnalysisFlag ==> (podExpOK(peerPod(selPeer(src, dst, isIngress)))
+//@         && sepCS(allowedConns, peerPod(selPeer(src, dst, isIngress)).IngressExposureData.ClusterWideConnection)
+//@         && sepCS(allowedConns, peerPod(selPeer(src, dst, isIngress)).EgressExposureData.ClusterWideConnection)
+//@         && peerPod(selPeer(src, dst, isIngress)).IngressExposureData.ClusterWideConnection == old(peerPod(selPeer(src, dst, isIngress)).IngressExposureData.ClusterWideConnection)
+//@         && peerPod(selPeer(src, dst, isIngress)).EgressExposureData.ClusterWideConnection == old(peerPod(selPeer(src, dst, isIngress)).EgressExposureData.ClusterWideConnection))
+//@     invariant npok: forall j int :: {netpols[j]} (0 <= j && j < len(netpols)) ==>
+//@         (npOK(pe, netpols[j])
+//@          && sepCS(allowedConns, netpols[j].IngressPolicyExposure.ExternalExposure) && sepCS(allowedConns, netpols[j].IngressPolicyExposure.ClusterWideExposure)
+//@          && sepCS(allowedConns, netpols[j].EgressPolicyExposure.ExternalExposure) && sepCS(allowedConns, netpols[j].EgressPolicyExposure.ClusterWideExposure))
+//@     invariant npsep: pe.exposureAnalysisFlag ==> (forall j int :: {netpols[j]} (0 <= j && j < len(netpols)) ==> podNpSep(peerPod(selPeer(src, dst, isIngress)), netpols[j]))
+//@     invariant expo: pe.exposureAnalysisFlag ==> (forall j int :: {netpols[j]} (0 <= j && j <= rangeindex) ==> cweIncluded(netpols[j], peerPod(selPeer(src, dst, isIngress)), isIngress))
